@@ -101,6 +101,56 @@ def gen_hist_case(rng, algs=("DE", "NSDE", "GDE3", "GDE3MNN", "GDE32NN", "GDE3P"
     return cfg
 
 
+# Scenarios that need several independent features at once (found by seeded changes that the few dozen histories of a quick run met only
+# by luck).  A share of every history check's cases is drawn from them in turn, by rejection on the ordinary generator, so that all other
+# features keep their distribution.
+def feasible_share(c, n=40):
+    """share of feasible points among n uniform points of the box (deterministic in the case)"""
+    r = np.random.default_rng(c["seed"])
+    pr = make_problem(c)
+    X = pr.xl + r.random((n, c["n_var"])) * (pr.xu - pr.xl)
+    out = pr.evaluate(X, return_as_dictionary=True)
+    cv = np.zeros(n)
+    if out.get("G") is not None and c["n_ieq"]:
+        cv = cv + np.maximum(out["G"], 0).sum(axis=1)
+    if out.get("H") is not None and c.get("n_eq"):
+        cv = cv + np.abs(out["H"]).sum(axis=1)
+    return float((cv <= 0).mean())
+
+
+SCENARIOS = [
+    # the algorithm's own default survival object, already used on an UNCONSTRAINED problem in this process, now on a constrained one
+    ("default-survival-primed-constrained", lambda c: c["surv"] == "default" and c.get("prime") and c["n_ieq"] > 0 and not c.get("late_feasible")
+     and 0.2 <= feasible_share(c) <= 0.8),          # feasible and infeasible candidates compete in every generation
+    # small feasible region: feasible members appear one at a time during the run, with the constraint-ranking survival
+    ("constr-survival-late-feasible", lambda c: c["surv"] == "ConstrRankAndCrowding" and c.get("late_feasible") and c["alg"] in ("NSDE", "GDE3", "GDE3MNN", "GDE32NN", "GDE3P")),
+    # single-objective DE on a coarse plateau with a minimal population: generations in which no trial replaces its parent
+    ("de-stagnant", lambda c: c["alg"] == "DE" and c["digits"] == 1 and c["pop_size"] <= 1 + 2 * (c["y"] + (1 if "-to-" in c["sel"] else 0)) + 2),
+    ("default-survival-late-feasible", lambda c: c["surv"] == "default" and c.get("late_feasible")),
+    # constraint-ranking survival that has to cut inside the infeasible part: two constraints (fronts of several members in violation
+    # space), few feasible points
+    ("constr-survival-two-constraints-mostly-infeasible", lambda c: c["surv"] == "ConstrRankAndCrowding" and c["n_ieq"] == 2 and c["alg"] in ("NSDE", "GDE3", "GDE3MNN", "GDE32NN", "GDE3P")
+     and not c.get("late_feasible") and c["pop_size"] >= 8 and feasible_share(c) <= 0.3),
+    # the dither range handed over as one float array that every construction in the process shares
+    ("shared-F-array", lambda c: bool(c.get("F_array"))),
+]
+
+
+def gen_scenario_case(rng, k, algs, n_gen=4):
+    """the k-th scenario (cyclically) that these algorithms can meet; None if none can"""
+    for j in range(len(SCENARIOS)):
+        name, pred = SCENARIOS[(k + j) % len(SCENARIOS)]
+        for _ in range(3000):
+            c = gen_hist_case(rng, algs=algs, n_gen=n_gen)
+            if pred(c):
+                c["scenario"] = name
+                c["fresh_process"] = True        # state carried between calls is part of the scenario, not of the batch it sits in
+                if name == "de-stagnant":
+                    c["n_gen"] = max(c["n_gen"], 8)
+                return c
+    return None
+
+
 def make_problem(cfg):
     pr = RandProblem(cfg["n_var"], cfg["n_obj"], cfg["n_ieq"], decarr(cfg["xl"]), decarr(cfg["xu"]), cfg["A"], cfg["B"], cfg["shift"], cfg["digits"],
                        cfg.get("fscale", 1.0), cfg.get("gscale", 1.0), n_eq=cfg.get("n_eq", 0), Bh=cfg.get("Bh"), shift_h=cfg.get("shift_h", 0.0),
